@@ -9,7 +9,7 @@
 From Coq Require Import List ZArith.
 Import ListNotations.
 From KDB Require Import Util PropDefs PropProofs.
-From KDB Require PropLazyEval.
+From KDB Require PropLazyEval PropSimLazy PropNotify.
 
 Theorem C13_clean_runs_nothing :
   forall fn rtl val t, root_dirty t = false -> snd (eval fn rtl val t) = [].
@@ -55,6 +55,19 @@ Example C13_exact_example :
   | Some t1 => snd (eval (fun _ l => Some (fold_right Z.add 0%Z l)) true (fun _ => Some 1%Z) t1) = [7]
   | None => False end.
 Proof. vm_compute. repeat split; reflexivity. Qed.
+
+(* "evaluating when nothing changed invokes no user function at all", at the level of a whole network of evaluator-driven bindings
+   (coq/PropNotify.v): an evaluateAll that directly follows another one records nothing - no user function runs, no observer is called -
+   and in fact returns the very same world (C06_second_evaluate_all_changes_nothing) *)
+Theorem C13_evaluate_all_when_nothing_changed_runs_nothing :
+  forall fn rtl ev fuel w e st w1 w2 r,
+    PropSimLazy.LSC ev w -> PropSimLazy.LCOH fn w -> lookup (w_bevs w) e = Some ev -> nth_error (w_evps w) ev = Some st ->
+    NoDup (PropSimLazy.regs_of w (ep_registry st)) -> PropSimLazy.lchain w (PropSimLazy.regs_of w (ep_registry st)) ->
+    (forall rb, In rb (ep_registry st) -> PropSimLazy.lz w (snd rb) <> None) ->
+    step1 fn rtl (S fuel) w (BevEvalAll e) = (w1, None) ->
+    step1 fn rtl (S fuel) w1 (BevEvalAll e) = (w2, r) -> r = None /\ w_trace w2 = w_trace w1.
+Proof. exact PropNotify.lazy_second_evalall_runs_nothing. Qed.
+Print Assumptions C13_evaluate_all_when_nothing_changed_runs_nothing.
 
 (* the strict statement is false in immediate mode: f(x, x) runs f twice for one change of x *)
 Theorem C13_multipath_refuted :
